@@ -6,6 +6,7 @@
 package main
 
 import (
+	"sync/atomic"
 	"crypto/sha256"
 	"encoding/hex"
 	"fmt"
@@ -69,6 +70,8 @@ var stages = []stage{
 
 // state features of the target directory; a state is "absent", "empty" or any subset of these
 var features = []string{"previous", "user", "nested", "symlink", "readonly"}
+
+var otherStage int64
 
 var genName = regexp.MustCompile(`^(oas|openapi).*_gen(_test)?\.go$`)
 
@@ -204,11 +207,14 @@ func runCase(r *vf.Run, ogen, w string, st stage, state []string, clean, abs boo
 	if st.Want != "" {
 		switch {
 		case exit == 0:
-			vf.Fatal("fixture %q did not fail", st.Name)
+			// the property demands a non-zero exit for these inputs
+			class = "failing-input-exits-zero"
+			k.Problems = append(k.Problems, "the command exited 0 on an input that cannot be generated")
 		case !strings.Contains(string(outb), st.Want):
-			vf.Fatal("fixture %q failed at another stage than intended: %s", st.Name, lastN(string(outb), 600))
+			// failed, but not with the diagnostic this fixture was written for: the target must be untouched all the same
+			atomic.AddInt64(&otherStage, 1)
 		}
-		if (before == nil) != (after == nil) || len(removed)+len(changed)+len(created) > 0 {
+		if class == "" && ((before == nil) != (after == nil) || len(removed)+len(changed)+len(created) > 0) {
 			class = "target-changed-by-failed-generation"
 			if after != nil && before == nil {
 				k.Problems = append(k.Problems, "absent target directory was created")
@@ -219,7 +225,7 @@ func runCase(r *vf.Run, ogen, w string, st stage, state []string, clean, abs boo
 		if exit != 0 {
 			// a read-only generated file may legitimately make writing fail; nothing else may
 			if !contains(state, "readonly") {
-				vf.Fatal("success fixture failed (%s, state %v): %s", st.Name, state, lastN(string(outb), 600))
+				k.Problems = append(k.Problems, "a valid input failed to generate into this target state (exit "+fmt.Sprint(exit)+")")
 			}
 		}
 		for _, n := range removed {
@@ -355,6 +361,7 @@ func main() {
 	close(ch)
 	wg.Wait()
 	r.Set("stages", len(stages))
+	r.Set("failure_runs_with_another_diagnostic_than_the_fixture_expects", otherStage)
 	r.Set("target_states", len(states))
 	r.Sample(map[string]any{"stage": "malformed YAML", "target_state": []string{"previous", "user", "nested"}, "clean": true, "absolute_target": false})
 	r.Sample(map[string]any{"stage": "none (success)", "target_state": []string{"user", "symlink", "readonly"}, "clean": true, "absolute_target": true})
